@@ -52,6 +52,16 @@ def main():
         if rc:
             out["demo_clean_tail"] = o[-600:]
         rc, o = sh(["git", "-C", wt, "apply", os.path.join(seed_dir, "patch.diff")])
+        if rc:
+            # written against an earlier /repo HEAD: fall back to the commit the author worked from
+            base = None
+            for i, a_ in enumerate(args):
+                if a_ == "--base":
+                    base = args[i + 1]
+            if base:
+                sh(["git", "-C", wt, "checkout", "-q", "--detach", base])
+                out["base"] = base
+                rc, o = sh(["git", "-C", wt, "apply", os.path.join(seed_dir, "patch.diff")])
         out["patch_applies"] = rc == 0
         if rc:
             out["apply_error"] = o[-400:]
